@@ -6,11 +6,15 @@ set -e
 DEST="$1"; VAR="${2:-plain}"
 REPO="${VERIF_REPO:-/repo}"
 mkdir -p "$DEST"
+sync_tree() {
 rsync -a --delete --exclude '.git' --exclude '*.o' --exclude '*.a' --exclude '*.map' \
       --exclude '/apps/ssl/client' --exclude '/apps/ssl/server' --exclude '/apps/dtls/dtlsClient' \
       --exclude '/apps/dtls/dtlsServer' --exclude '/crypto/test/*Test' --exclude '/crypto/test/cryptoOpen' \
       --exclude '/matrixssl/test/sslTest' --exclude '/matrixssl/test/certValidate' \
       "$REPO"/ "$DEST"/
+}
+# rsync exit 24 = "some files vanished" (someone edited the tree during the copy): copy again
+sync_tree || { rc=$?; if [ $rc -eq 24 ]; then sleep 1; sync_tree || [ $? -eq 24 ]; else exit $rc; fi; }
 cd "$DEST"
 EXTRA="-DMATRIXSSL_VERIF"
 case "$VAR" in
